@@ -4,6 +4,13 @@
 #ifndef ENV_OPN2_H
 #define ENV_OPN2_H
 #include "verif_types.h"
+#ifdef VERIF_CBMC
+#include "opnmidi_verif_contracts.h"   /* loop contracts for the VERIF_LOOP markers that the extracted text carries */
+#else
+#define VERIF_LOOP(id)
+#define VERIF_GHOST(decl)
+#define VERIF_ENTRY(id)
+#endif
 
 #ifndef ENV_MAX_CHIPS
 #define ENV_MAX_CHIPS 100                 /* the library's own limit (opn2_setNumChips) */
